@@ -623,7 +623,7 @@ impl PathRouter {
                             let stripped: String = parsed_prefix
                                 .raw
                                 .chars()
-                                .dropping_back(details.end - details.start)
+                                .dropping_back(details.end - details.start + 1)
                                 .collect();
                             fallback_path = Some(format!("{stripped}{{*catch_all}}"));
                         }
